@@ -2,10 +2,12 @@ from .checks import deps, pipeline, version, selfhost, container
 
 CHECKS = {
     "C02": lambda tier: container.run_c02(tier),
+    "C04": lambda tier: container.run_c04(tier),
     "C05": lambda tier: deps.run_property("C05", tier),
     "C06": lambda tier: deps.run_property("C06", tier),
     "C07": lambda tier: deps.run_property("C07", tier),
     "C10": lambda tier: pipeline.run_c10(tier),
+    "C15": lambda tier: container.run_c15(tier),
     "C16": lambda tier: deps.run_c16(tier),
     "C18": lambda tier: version.run_c18(tier),
     "C19": lambda tier: selfhost.run_c19(tier),
